@@ -38,6 +38,11 @@ def valid_case(rng, several=False):
                                                   pu_frac=[0.2, 0.2, 0.2], zr_frac=[0.1, 0.1, 0.1], porosity=[0.25, 0.25, 0.25])
         if rng.random() < 0.2:
             case['types'][tn]['dummy_pin'] = [1, 2]          # (a schema key: pins without power)
+        if rng.random() < 0.25 and not case['types'][tn].get('use_low_fidelity_model') and not case['types'][tn].get('AxialRegion'):
+            # spacer grids given by their loss coefficient - zero is a number, too (a grid without loss)
+            L_ = case['core']['length']
+            case['types'][tn]['SpacerGrid'] = dict(loss_coeff=rng.choice([0.0, 0.0, 0.9, 1.6]),
+                                                   axial_positions=[round(0.3 * L_, 4), round(0.7 * L_, 4)])
     gi.random_power(rng, case)
     if rng.random() < 0.5:
         gi.random_setup_options(rng, case)
